@@ -104,7 +104,9 @@ class C16(Prop):
         if rng.random() < 0.3:
             # a sampling period other than 1 s, bounds written in its unit; and possibly a neighbour: another
             # specification object with the same text and a finer period, evaluated first in the same process
-            case['period'] = rng.choice([[1, 's'], [1, 'ms'], [500, 'ms'], [2, 's'], [1, 'us'], [2, 'ms']])
+            # (many different numbers: a process-wide memo keyed by the bound text is only wrong for the first user)
+            case['period'] = [rng.choice([1, 1, 2, 3, 4, 5, 7, 8, 10, 20, 25, 40, 50, 100, 125, 200, 250, 400, 500]),
+                              rng.choice(['s', 'ms', 'us'])]
             case['neighbour'] = rng.random() < 0.6
         return case
 
@@ -137,7 +139,7 @@ class C16(Prop):
                                                                          dur_in(iv[1] * p * U[pu], pu), pu))
             sd = {'period': (p, pu, 0.1)}
             times = [float(Fr(i * p * U[pu], U['s'])) for i in range(n2)]
-            v.info['period:%s%s' % (p, pu)] = 1
+            v.info['period-unit:%s' % pu] = 1
             finer = {'s': 'ms', 'ms': 'us', 'us': 'ns'}[pu]
             heavy = any(g[0] in ('since', 'until', 'unless') and g[1] is not None and g[1][1] > 0 for g in lang.walk(f))
             if case.get('neighbour') and not heavy:
